@@ -21,7 +21,7 @@ EXHAUSTIVE = {"quick": False, "thorough": True}
 RULE = ("one case = one real project directory written the way signac 1.x did (vendored ConfigObj writes signac.rc with "
         "project / workspace_dir / schema_version; jobs as <workspace>/<id>/signac_statepoint.json + signac_job_document.json "
         "+ files; gzip state point cache; shell history) or the way signac 2 does (.signac/config).  Product of: layout x "
-        "schema version {absent, 0, 1, 2, 3, 10}; project names {None, plain, spaces, punctuation/quotes/comma/#/=}; "
+        "schema version {absent, 0, 1, 2, 3, 10}; project names {None, plain, spaces, punctuation with both quote kinds (triple-quoted by the writer), and names the writer single-quotes: comma, #, leading/trailing blank, one quote kind, empty, list-looking}; workspace_dir values the writer quotes (comma, blanks, #, a quote); "
         "workspace_dir {key absent, 'workspace', relative custom, nested custom, nested names ENDING in workspace (data/workspace, x/y/workspace), spellings ./workspace and workspace/, custom colliding with an existing empty / "
         "non-empty 'workspace'}; the workspace directory existing or (0 jobs only) never created; v1 cache and shell-history "
         "files present or not; a pre-existing project document or not; 0, 1, 3 or 5 jobs with documents, files and nested "
@@ -31,15 +31,21 @@ RULE = ("one case = one real project directory written the way signac 1.x did (v
         "files of the project re-opened with signac.  non-trivial: a legacy project with >= 1 job or a non-default option; "
         "distinct by option tuple")
 TRUSTED = [
-    "ConfigObj parsing / writing of configuration files is outside the model (files are passed as parsed records: "
-    "schema_version, project, workspace_dir as a configspec-free ConfigObj reads them)",
+    "ConfigObj parsing / writing of configuration files (the config-file lexer: quoting on write, un-quoting and list "
+    "splitting on read) is outside the model: files are passed as parsed records (schema_version, project, workspace_dir "
+    "as a configspec-free ConfigObj reads them); validated on every generated value: the oracle clause orig_ok demands "
+    "that this parse returns the ORIGINAL name / workspace_dir handed to the legacy writer",
     "the harness reads the jobs before the migration from the raw files (json.load) and after it through signac's API",
     "filelock's lock file is not modelled (the tree is compared after apply_migrations returned)",
 ]
 ASSUMPTIONS = ["project names are ASCII without newlines and without ConfigObj interpolation syntax '%(' / '$'",
                "HOME holds no .signacrc"]
 
-NAMES = ["None", "test_project", "My Project 2", "a, b; #c = \"q\" 's' [x]"]
+NAMES = ["None", "test_project", "My Project 2", "a, b; #c = \"q\" 's' [x]"]   # the last one is written triple-quoted
+# values the legacy writer (ConfigObj) has to QUOTE: comma, '#', leading / trailing blank, one or both quote
+# kinds, the empty string, a value that looks like a list
+QUOTED_NAMES = ["My project, v2 (final)", "run #7", " padded ", "it's; here", 'say "hi"', "", "a, b"]
+QUOTED_WS = ["ws, data", " ws ", "#ws", "w's", 'w"s']
 LEGACY_VERSIONS = [None, 0, 1]
 WS_OPTS = [  # (workspace_dir key, exists?, collide)
     (None, True, None), ("workspace", True, None), ("ws", True, None), ("data/ws", True, None),
@@ -59,6 +65,16 @@ def all_inputs():
         for (w, ex, col) in WS_OPTS + (WS_OPTS_EMPTY if njobs == 0 else []):
             out.append({"layout": "v1", "ver": ver, "name": name, "ws": w, "ws_exists": ex, "collide": col,
                         "njobs": njobs, "cache": cache, "hist": hist, "predoc": predoc})
+    for name, ver, njobs, (w, ex, col), predoc in itertools.product(
+            QUOTED_NAMES, LEGACY_VERSIONS, [0, 3], [(None, True, None), ("ws", True, None), ("data/workspace", True, None)], [False, True]):
+        out.append({"layout": "v1", "ver": ver, "name": name, "ws": w, "ws_exists": ex, "collide": col,
+                    "njobs": njobs, "cache": False, "hist": False, "predoc": predoc})
+    for w, ver, name, njobs in itertools.product(QUOTED_WS, [None, 1], ["None", "run #7"], [0, 3]):
+        out.append({"layout": "v1", "ver": ver, "name": name, "ws": w, "ws_exists": True, "collide": None,
+                    "njobs": njobs, "cache": njobs == 3, "hist": False, "predoc": False})
+        if njobs == 0:
+            out.append({"layout": "v1", "ver": ver, "name": name, "ws": w, "ws_exists": False, "collide": None,
+                        "njobs": 0, "cache": False, "hist": False, "predoc": False})
     for ver, name, (w, ex, col), njobs in itertools.product([2, 3, 10], ["None", "My Project 2"], [(None, True, None), ("ws", True, None), ("ws", False, None), ("ws", True, "full")], [0, 3]):
         if not ex and njobs:
             continue
@@ -86,6 +102,12 @@ def always_quick():
         for ver, njobs, name in [(None, 3, "My Project 2"), (1, 1, "None"), (0, 5, "test_project")]:
             out.append({"layout": "v1", "ver": ver, "name": name, "ws": w, "ws_exists": True, "collide": None,
                         "njobs": njobs, "cache": njobs == 3, "hist": njobs == 1, "predoc": njobs == 5})
+    for k, name in enumerate(QUOTED_NAMES):
+        out.append({"layout": "v1", "ver": [None, 0, 1][k % 3], "name": name, "ws": [None, "ws"][k % 2], "ws_exists": True,
+                    "collide": None, "njobs": 3, "cache": False, "hist": False, "predoc": k % 2 == 1})
+    for k, w in enumerate(QUOTED_WS):
+        out.append({"layout": "v1", "ver": [1, None][k % 2], "name": ["None", "run #7"][k % 2], "ws": w, "ws_exists": True,
+                    "collide": None, "njobs": 3, "cache": True, "hist": False, "predoc": False})
     return out
 
 
@@ -305,7 +327,8 @@ def observe(d):
         layout_after = sorted(os.listdir(root))
         return {"base": base, "root": root, "cwd": sd, "tree": tree, "gate": gate, "mig": mig, "mig_post": mig_post,
                 "again": again, "again_changed": again_changed, "jobs_before": jobs_before, "opened": opened,
-                "name_after": name_after, "layout_after": layout_after}
+                "name_after": name_after, "layout_after": layout_after,
+                "orig": (d.get("name"), d.get("ws")) if d["layout"] == "v1" else None}
 
 
 def run_case(desc):
@@ -315,12 +338,15 @@ def run_case(desc):
     opened = o["opened"]
     coq = ("{| c20_base := %s; c20_tree := %s; c20_root := %s; c20_cwd := %s; c20_gate := %s; c20_mig := %s; "
            "c20_mig_post := %s; c20_again := %s; c20_again_changed := %s; c20_jobs_before := %s; c20_open_after := %s; "
-           "c20_name_after := %s |}") % (
+           "c20_name_after := %s; c20_orig := %s |}") % (
         coq_str(o["base"]), o["tree"], coq_str(o["root"]), coq_str(o["cwd"]), coq_list(glits, "gobs"),
         coq_res_unit(o["mig"]), o["mig_post"], coq_res_unit(o["again"]), coq_bool(o["again_changed"]),
         coq_jobs(o["jobs_before"]),
         ("(Ok %s)" % coq_jobs(opened[1])) if opened[0] == "ok" else "(Err %s)" % opened[1],
-        coq_opt(None if o["name_after"] is None else coq_json(o["name_after"])))
+        coq_opt(None if o["name_after"] is None else coq_json(o["name_after"])),
+        coq_opt(None if o["orig"] is None else "(%s, %s)" % (
+            coq_opt(None if o["orig"][0] is None else coq_str(o["orig"][0])),
+            coq_opt(None if o["orig"][1] is None else coq_str(o["orig"][1])))))
     obs = {"gate": [[g["kind"], g["res"][0] if g["res"][0] == "ok" else g["res"][1], g["changed"]] for g in o["gate"]],
            "migrate": list(o["mig"]), "again": list(o["again"]), "again_changed": o["again_changed"],
            "ids_before": [j[0] for j in o["jobs_before"]],
